@@ -17,3 +17,5 @@ def run(prog, rep):
     _rk3.run_handles_only(prog, rep)
     from ..rules import r_hdr as _rh12
     _rh12.run(prog, rep)
+    from ..rules import r_order as _ro2
+    _ro2.run_attr_search(prog, rep)
